@@ -25,7 +25,8 @@ FAMILIES = ["gauss_cov_scalar", "gauss_cov_vec", "gauss_cov_full", "gauss_prec_f
             "gmrf_neumann", "gmrf2d", "normal", "gamma", "invgamma", "beta", "laplace", "lognormal",
             "uniform", "cauchy", "mhn", "gauss_sqrtprec_lower", "gauss_sqrtprec_full", "gauss_sqrtcov_upper",
             "gauss_sqrtcov_full", "gauss_prec_vec", "gauss_geom_cont1d", "gauss_geom_image2d", "normal_geom_cont1d",
-            "gamma_geom_discrete", "user_defined_gauss"]
+            "gamma_geom_discrete", "gauss_sqrtprec_full_forder", "gauss_sqrtprec_sparse_bidiag", "gauss_mean_cuqiarray", "gmrf_mean_cuqiarray",
+            "user_defined_gauss"]
 
 
 def build_dist(rec):
@@ -67,6 +68,19 @@ def build_dist(rec):
     if fam == "gamma_geom_discrete":
         import cuqi
         return D.Gamma(np.linspace(1.0, 3.0, n), 1.5, geometry=cuqi.geometry.Discrete(["v%d" % i for i in range(n)]))
+    if fam == "gauss_sqrtprec_full_forder":
+        return D.Gaussian(mean, sqrtprec=np.asfortranarray(np.eye(n) + 0.5 * (B + B.T)))
+    if fam == "gauss_sqrtprec_sparse_bidiag":
+        n2 = max(n, 2)
+        R = sps.spdiags([np.linspace(1, 2, n2), 0.3 * np.ones(n2)], [0, 1], n2, n2)      # DIA storage, not diagonal
+        return D.Gaussian(np.random.RandomState(z).randn(n2), sqrtprec=R)
+    if fam in ("gauss_mean_cuqiarray", "gmrf_mean_cuqiarray"):
+        import cuqi
+        from cuqi.array import CUQIarray
+        mu = CUQIarray(np.random.RandomState(z).randn(9), geometry=cuqi.geometry.Continuous1D(np.linspace(0, 1, 9)))
+        if fam.startswith("gauss"):
+            return D.Gaussian(mu, 0.5, geometry=cuqi.geometry.Image2D((3, 3)))      # a parameter carrying another geometry
+        return D.GMRF(mu, 2.0, geometry=cuqi.geometry.Image2D((3, 3)))
     if fam == "gauss_prec_vec":
         return D.Gaussian(mean, prec=np.linspace(0.5, 2.0, n))
     if fam == "gauss_sparse_cov":
@@ -163,7 +177,7 @@ class LoggedRS(np.random.RandomState):
         return self._rec(super().standard_normal, size)
 
 
-GAUSS_MECH = ("gauss_", "gmrf_zero", "gmrf2d", "lognormal")
+GAUSS_MECH = ("gauss_", "gmrf_zero", "gmrf2d", "gmrf_mean_cuqiarray", "lognormal")
 
 
 def out_array(o):
@@ -255,6 +269,7 @@ class StreamsRun:
                     continue
                 if k == "a_sample":
                     self._gaussian_mechanism(op, dists[op["d"]], g, n_before, out)
+                    self._linear_gaussian_identification(op, dists[op["d"]], g, n_before, out)
                     self._support_oracle(op, dists[op["d"]], out)
                 if k == "a_sample" and op["d"] in self.specs:
                     self._fresh_twin_oracle(op, dists[op["d"]], pre, out)
@@ -322,6 +337,52 @@ class StreamsRun:
                 ctx.violate(PROP, "interleaved_differs_from_solo", self.sig(client="B", op=op["op"], fam=self._fam(op)), index=i)
                 break
         np.random.set_state(saveG)
+
+    def _linear_gaussian_identification(self, op, dist, g, n_before, out):
+        """GMRF families (all boundary conditions), when one call returns more draws than the generator handed out
+        standard-normal rows: the draws are a *linear* function of those rows, S - mean = M E.  M is identified exactly
+        from this one call (least squares, residual must vanish), the precision P the object's own log-density reports is
+        read off its second differences (exact for a quadratic), and C = M M' must be the (pseudo-)inverse of P:
+        C P C = C and P C P = P.  Decides the covariance of the draws also for non-square / rank-deficient noise maps."""
+        ctx = self.ctx
+        fam = self._fam(op)
+        if not fam.startswith("gmrf_") or self.conditional.get(op["d"]) or dist.dim > 8:
+            return
+        N = op["N"]
+        blocks = [np.asarray(b, float) for b in g.normals[n_before:]]
+        try:
+            E = np.vstack([b.reshape(-1, N) for b in blocks])
+        except Exception:
+            return
+        K = E.shape[0]
+        if N < K + 2:
+            return
+        m = np.asarray(dist.mean, float) * np.ones(dist.dim)
+        Sm = out.reshape(dist.dim, -1) - m[:, None]
+        M = np.linalg.lstsq(E.T, Sm.T, rcond=None)[0].T
+        scale = max(1.0, float(np.max(np.abs(Sm))))
+        if np.max(np.abs(M @ E - Sm)) > 1e-8 * scale:
+            ctx.undecided("draws are not a linear function of the recorded normal rows")
+            return
+        n = dist.dim
+        I = np.eye(n)
+        f = lambda x: float(np.ravel(dist.logd(m + x))[0])
+        try:
+            f0 = f(np.zeros(n))
+            fi = [f(I[i]) for i in range(n)]
+            P = np.array([[-(f(I[i] + I[j]) - fi[i] - fi[j] + f0) for j in range(n)] for i in range(n)])
+        except Exception:
+            return
+        if not np.all(np.isfinite(P)):
+            return
+        C = M @ M.T
+        r1 = np.max(np.abs(C @ P @ C - C)) / max(np.max(np.abs(C)), 1e-300)
+        r2 = np.max(np.abs(P @ C @ P - P)) / max(np.max(np.abs(P)), 1e-300)
+        ctx.count("decisions")
+        ctx.hit("linear_gaussian_identification")
+        if r1 > 1e-5 or r2 > 1e-5:
+            ctx.violate(PROP, "covariance_of_draws_is_not_pseudo_inverse_of_own_precision", self.sig(fam=fam),
+                        CPC_minus_C=float(r1), PCP_minus_P=float(r2), N=N, noise_rows=int(K))
 
     def _support_oracle(self, op, dist, out):
         """one column per draw: every column of the returned collection must be a point of positive density under the
@@ -533,7 +594,10 @@ def gen_case(r, tier):
         x = r.random()
         N = r.choice([1, 1, 2, 3, 4, 5, 7])
         if x < 0.45:
-            ops.append({"op": "a_sample", "d": r.randrange(nd), "N": N, "repeat": r.random() < 0.4})
+            d_ = r.randrange(nd)
+            if dists[d_]["fam"].startswith("gmrf_") and r.random() < 0.5:
+                N = 3 * max(dists[d_]["n"], 3) + 4          # more draws than noise rows: the noise map is identifiable
+            ops.append({"op": "a_sample", "d": d_, "N": N, "repeat": r.random() < 0.4})
         elif x < 0.55:
             ops.append({"op": "a_legacy", "kind": r.choice(["ULA", "MALA", "UGLA"]), "N": r.randint(2, 5)})
         elif x < 0.75:
